@@ -1047,6 +1047,9 @@ class C20(PropBase):
                     self._kkey = (case, prof)
                     bad = self.compare_case(c, a, model[i])
                     if bad == "skip":
+                        # the model was asked about an environment that is not this run's (a report that fits into the pipe buffer /
+                        # below the size limit: racy or size-dependent): its verdict on the known findings is not used either
+                        self._kclass.pop(self._kkey, None)
                         continue
                     compared += 1
                     if bad:
